@@ -35,6 +35,22 @@ CHECKS.update({
    note=CODEC_NOTE + " Enum leaves inside compressed regions are not mutated (counted in the evidence)."),
 })
 
+
+CHECKS.update({
+ "C05": dict(engine="codec_harness", category="exploration", design="DESIGN.md §2 C05",
+   technique="stateful PBT: proptest-generated session keys and message sequences through the encrypted writers and the peer's decrypting readers; differential against the plain stream",
+   text="For each expansion and direction, proptest draws a session key and a sequence of up to 16 written messages (all types, compressed ones, Wrath server bodies on both sides of the 2/3-byte boundary); the ciphertext must equal the plaintext outside the header byte ranges, the peer's read_encrypted (sync/tokio/async-std) and the typed expect_*_message_encryption helpers must return the plain reader's messages, a probe message after the sequence must still decrypt, and the three encrypted writers must emit identical bytes.",
+   note=CODEC_NOTE + " wow_srp's header cipher is trusted as the definition of the encryption."),
+ "C06": dict(engine="codec_harness", category="exploration", design="DESIGN.md §2 C06",
+   technique="schedule-owning harness: scripted AsyncRead/AsyncWrite with chosen chunking and Pending counts, hand-rolled poll loop; exhaustive chunk compositions for short frames, proptest schedules beyond; differential against the blocking reader",
+   text="Every login message (all protocol versions) and a spread of world messages are read by the tokio and async-std functions from a transport whose chunking and Pending pattern the harness chooses: all 2^(n-1) compositions for frames up to 12 bytes with 0/1 Pending per chunk, and single-byte, halved, field-splitting and proptest-drawn schedules for longer ones, on canonical and malformed inputs; results must equal the blocking reader's (value and consumption, or error kind), and the three writers must emit identical bytes through a sink accepting partial writes.",
+   note=CODEC_NOTE + " Deterministic: no runtime, no timers. Real multi-threaded executors are out of scope of the property."),
+ "C14": dict(engine="codec_harness", category="exploration", design="DESIGN.md §2 C14",
+   technique="PBT with round-trip (lift/lower) and differential (protocol-parameterised API vs the version's own codec) oracles over model-generated encodings and their corruptions",
+   text="For each of the 15 collective families and each protocol version the sources define, canonical encodings and ~60 corruptions each are decoded by the version's own codec and by expect_*_message_protocol; lifting then lowering must be the identity, the protocol API must give the lifted value and the version's own bytes (sync, tokio, async-std, also byte-by-byte), and malformed input must fail the same way on both paths.",
+   note=CODEC_NOTE + " The version's own codec is the reference here (it is judged by C01)."),
+})
+
 PENDING = {}
 
 def main():
